@@ -217,9 +217,9 @@ def i_CDQ(i, fmap):
 
 def i_CQO(i, fmap):
     fmap[rip] = fmap[rip] + i.length
-    x = fmap(eax).signextend(128)
+    # rdx:rax is the sign extension of rax (rax itself is unchanged):
+    x = fmap(rax).signextend(128)
     fmap[rdx] = x[64:128]
-    fmap[rax] = x[0:64]
 
 
 def i_PUSHFQ(i, fmap):
@@ -914,7 +914,10 @@ def i_SHR(i, fmap):
     a = fmap(op1)
     if count._is_cst:
         if count.value == 0:
-            return  # flags unchanged
+            # flags are unchanged, but a 32-bit destination register is still zero-extended
+            op1, a = _r32_zx64(op1, a)
+            fmap[op1] = a
+            return
         if count.value == 1:
             fmap[of] = a.bit(-1)  # MSB of a
         else:
@@ -946,6 +949,9 @@ def i_SAR(i, fmap):
     a = fmap(op1)
     if count._is_cst:
         if count.value == 0:
+            # flags are unchanged, but a 32-bit destination register is still zero-extended
+            op1, a = _r32_zx64(op1, a)
+            fmap[op1] = a
             return
         if count.value == 1:
             fmap[of] = bit0
@@ -979,6 +985,9 @@ def i_SHL(i, fmap):
     x = a << count
     if count._is_cst:
         if count.value == 0:
+            # flags are unchanged, but a 32-bit destination register is still zero-extended
+            op1, a = _r32_zx64(op1, a)
+            fmap[op1] = a
             return
         if count.value <= a.size:
             fmap[cf] = a.bit(a.size - count.value)
@@ -1016,6 +1025,9 @@ def i_ROL(i, fmap):
     x = ROL(a, count)
     if count._is_cst:
         if count.value == 0:
+            # flags are unchanged, but a 32-bit destination register is still zero-extended
+            op1, a = _r32_zx64(op1, a)
+            fmap[op1] = a
             return
         fmap[cf] = x.bit(0)
         if count.value == 1:
@@ -1043,6 +1055,9 @@ def i_ROR(i, fmap):
     x = ROR(a, count)
     if count._is_cst:
         if count.value == 0:
+            # flags are unchanged, but a 32-bit destination register is still zero-extended
+            op1, a = _r32_zx64(op1, a)
+            fmap[op1] = a
             return
         fmap[cf] = x.bit(-1)
         if count.value == 1:
@@ -1072,6 +1087,9 @@ def i_RCL(i, fmap):
     x, carry = ROLWithCarry(a, count, fmap(cf))
     if count._is_cst:
         if count.value == 0:
+            # flags are unchanged, but a 32-bit destination register is still zero-extended
+            op1, a = _r32_zx64(op1, a)
+            fmap[op1] = a
             return
         fmap[cf] = carry
         if count.value == 1:
@@ -1101,6 +1119,9 @@ def i_RCR(i, fmap):
     x, carry = RORWithCarry(a, count, fmap(cf))
     if count._is_cst:
         if count.value == 0:
+            # flags are unchanged, but a 32-bit destination register is still zero-extended
+            op1, a = _r32_zx64(op1, a)
+            fmap[op1] = a
             return
         if count.value == 1:
             fmap[of] = a.bit(-1) ^ fmap(cf)
